@@ -706,6 +706,128 @@ func TestC12ListBurst(t *testing.T) {
 	})
 }
 
+// PopRaceCase: several goroutines pop an almost empty stack at the same time, over and over.
+type PopRaceCase struct {
+	Poppers int `json:"poppers"`
+	Elems   int `json:"elems"`  // values on the stack at the start of every round
+	Rounds  int `json:"rounds"` // rounds per case
+}
+
+func genPopRace(t *rapid.T) PopRaceCase {
+	return PopRaceCase{
+		Poppers: rapid.IntRange(2, 12).Draw(t, "poppers"),
+		Elems:   rapid.IntRange(1, 3).Draw(t, "elems"),
+		Rounds:  rapid.SampledFrom([]int{200, 1000, 3000}).Draw(t, "rounds"),
+	}
+}
+
+// runPopRace: the contended moment of a stack is the last element. Every round puts 1..3
+// unique values on the stack and lets all poppers loose at once; each pops until it sees
+// the zero value. Oracle per round: the values popped by all goroutines together are
+// exactly the values pushed (none twice, none invented, none left), and no Pop panics.
+func runPopRace(t *testing.T, cs PopRaceCase) *ev.Verdict {
+	v := &ev.Verdict{}
+	cj, _ := json.Marshal(cs)
+	v.Canon = string(cj)
+	sched.Guard(func() {
+		var q cqueue.AtomicLIFO[int]
+		var round atomic.Int64 // round the poppers may work on
+		var finished atomic.Int64
+		var failed atomic.Bool
+		var mu sync.Mutex
+		var msg, sig string
+		fail := func(sg, f string, a ...any) {
+			mu.Lock()
+			if msg == "" {
+				sig, msg = sg, fmt.Sprintf(f, a...)
+			}
+			mu.Unlock()
+			failed.Store(true)
+		}
+		got := make([][]int, cs.Poppers)
+		var wg sync.WaitGroup
+		for g := 0; g < cs.Poppers; g++ {
+			wg.Add(1)
+			go func() {
+				defer wg.Done()
+				for r := int64(1); r <= int64(cs.Rounds); r++ {
+					for spin := 0; round.Load() < r; spin++ {
+						if failed.Load() {
+							return
+						}
+						if spin&63 == 63 {
+							runtime.Gosched()
+						}
+					}
+					func() {
+						defer func() {
+							if p := recover(); p != nil {
+								fail("lifo:pop-panic", "Pop panicked while %d goroutines pop a stack of %d: %v", cs.Poppers, cs.Elems, p)
+							}
+						}()
+						for {
+							x := q.Pop()
+							if x == 0 {
+								return
+							}
+							got[g] = append(got[g], x)
+						}
+					}()
+					finished.Add(1)
+				}
+			}()
+		}
+		val := 1
+		for r := int64(1); r <= int64(cs.Rounds) && !failed.Load(); r++ {
+			first := val
+			for i := 0; i < cs.Elems; i++ {
+				q.Push(val)
+				val++
+			}
+			round.Store(r)
+			for finished.Load() < r*int64(cs.Poppers) && !failed.Load() {
+				runtime.Gosched()
+			}
+			if failed.Load() {
+				break
+			}
+			// all poppers are between rounds: got is quiescent
+			seen := map[int]bool{}
+			for g := range got {
+				for _, x := range got[g] {
+					if x < first || x >= val {
+						fail("lifo:conservation", "round %d: value %d was popped but is not one of this round's values %d..%d", r, x, first, val-1)
+					} else if seen[x] {
+						fail("lifo:conservation", "round %d: value %d was popped twice", r, x)
+					}
+					seen[x] = true
+				}
+				got[g] = got[g][:0]
+			}
+			if len(seen) != cs.Elems && !failed.Load() {
+				fail("lifo:empty-pop-on-non-empty-stack", "round %d: %d values were pushed, every popper saw the zero value, but only %d values were popped", r, cs.Elems, len(seen))
+			}
+		}
+		round.Store(int64(cs.Rounds) + 1)
+		wg.Wait()
+		if msg != "" {
+			v.Add(P, sig, "%s", msg)
+		}
+	})
+	v.SetNT(P)
+	v.Class("poppers-race-for-last-element")
+	return v
+}
+
+func TestC12PopRace(t *testing.T) {
+	ev.Drive(t, ev.Runner[PopRaceCase]{
+		Prop: P, ReplayRuns: 200,
+		Rule: "200..3000 rounds per case: 1..3 unique values are pushed, then 2..12 goroutines pop in parallel until each sees the zero value; oracle per round: the popped values are exactly the pushed ones (none twice, invented or left behind) and no Pop panics; non-trivial always; distinct by case",
+		Gen:  genPopRace,
+		Run:  runPopRace,
+	})
+}
+
 func TestC12Controlled(t *testing.T) {
 	ev.Drive(t, ev.Runner[Case]{
 		Prop: P,
